@@ -18,7 +18,8 @@ pub fn unhex(s: &str) -> String {
     String::from_utf8_lossy(&bytes).into_owned()
 }
 pub fn hex(s: &str) -> String {
-    s.bytes().map(|b| format!("{:02x}", b)).collect()
+    // "h" prefix so that the empty string stays visible in comma-separated lists
+    format!("h{}", s.bytes().map(|b| format!("{:02x}", b)).collect::<String>())
 }
 
 pub fn table_string(bdd: &Bdd) -> String {
@@ -267,9 +268,10 @@ fn run_parse(id: &str, lines: &[String], out: &mut String) {
         let ok = parser.parse()(&text).is_ok();
         let names: Vec<String> = parser.var_container().names().read().unwrap().clone();
         let mut acs: Vec<String> = Vec::new();
+        let fnames = extra::formula_names(&parser);
         let mut i = 0;
         while let Some(f) = parser.ac_at(i) {
-            acs.push(hex(&format!("{:?}", f)));
+            acs.push(format!("{}:{}", hex(fnames.get(i).map(|s| s.as_str()).unwrap_or("")), hex(&format!("{:?}", f))));
             i += 1;
         }
         writeln!(
